@@ -445,10 +445,13 @@ impl Compiler {
     let ghost max0 = max_elts;
 //@ spec
     requires old(self).builder.inv(), is_single(item, 1),
-        min_elts >= 1, max_elts is Some ==> (max_elts->0 >= 1 && min_elts <= max_elts->0),
+        // callers must not ask for "at most 0 items": the encoding always contains one item
+        max_elts is Some ==> (max_elts->0 >= 1 && min_elts <= max_elts->0),
     ensures final(self).builder.inv(),
-        // minItems / maxItems (>= 1): exactly the sizes in range
-        res is Ok ==> cnt(res->Ok_0) == (match max_elts { Some(mx) => mults(1, min_elts as nat, mx as nat), None => mults_from(1, min_elts as nat) }),
+        // exactly the sizes max(min,1) ..= max (a minimum of 0 is handled by the caller making the whole sequence optional)
+        res is Ok ==> cnt(res->Ok_0) == (match max_elts {
+            Some(mx) => mults(1, if min_elts >= 1 { min_elts as nat } else { 1 }, mx as nat),
+            None => mults_from(1, if min_elts >= 1 { min_elts as nat } else { 1 }) }),
 //@ before let item_comma_rep = self.builder.repeat(item_comma, min_elts, max_elts);
     proof {
         lemma_sum_two(item, comma);
@@ -458,9 +461,10 @@ impl Compiler {
 //@ before Ok(self.builder.join(&[item_comma_rep, item]))
     proof {
         lemma_sum_two(item_comma_rep, item);
+        let mn: nat = if min0 >= 1 { (min0 - 1) as nat } else { 0 };
         match max0 {
-            Some(mx) => { lemma_shift_one((min0 - 1) as nat, (mx - 1) as nat); }
-            None => { lemma_shift_one_from((min0 - 1) as nat); }
+            Some(mx) => { lemma_shift_one(mn, (mx - 1) as nat); }
+            None => { lemma_shift_one_from(mn); }
         }
     }
 //@ end
